@@ -675,14 +675,17 @@ func startStateSync(ssR *statesync.Reactor, bcR fastSyncReactor, conR *cs.Reacto
 			ssR.Logger.Error("State sync failed", "err", err)
 			return
 		}
-		err = stateStore.Bootstrap(state)
-		if err != nil {
-			ssR.Logger.Error("Failed to bootstrap node with new state", "err", err)
-			return
-		}
+		// The commit first, the state last: a node that dies in between has no state and
+		// runs state sync again. The other way round it would have a state without the
+		// commit that consensus needs to start from it (reconstructLastCommit).
 		err = blockStore.SaveSeenCommit(state.LastBlockHeight, commit)
 		if err != nil {
 			ssR.Logger.Error("Failed to store last seen commit", "err", err)
+			return
+		}
+		err = stateStore.Bootstrap(state)
+		if err != nil {
+			ssR.Logger.Error("Failed to bootstrap node with new state", "err", err)
 			return
 		}
 
